@@ -2,4 +2,4 @@
 export GOFLAGS=-mod=mod GOPROXY=off GOSUMDB=off GOTOOLCHAIN=local
 export GOCACHE=/verif/.cache/go-build
 export CARGO_NET_OFFLINE=true PIP_NO_INDEX=1
-export VERIF_ROOT=/verif
+export VERIF_ROOT="$(cd "$(dirname "${BASH_SOURCE[0]}")" && pwd)"
